@@ -71,6 +71,8 @@ func main() {
 		os.Exit(cmdWorker(os.Args[2], os.Args[3], i, n, os.Args[6]))
 	case "replay":
 		os.Exit(cmdReplay(os.Args[2], os.Args[3]))
+	case "prep":
+		os.Exit(cmdPrep(os.Args[2], os.Args[3], os.Args[4]))
 	case "gen1":
 		os.Exit(cmdGen1(os.Args[2], os.Args[3], os.Args[4] == "1"))
 	default:
